@@ -79,7 +79,11 @@ def _machine(col):
 
 GEN_BLOCK_NAMES = [f"{k}_block_{i}" for k in (BN.SYNTH_ASSIGN, BN.SYNTH_EXIT_LATCH, BN.SYNTH_EXIT, BN.SYNTH_HEAD, BN.SYNTH_TAIL, BN.SYNTH_FILL, BN.SYNTH_RETURN, BN.SYNTH_EXIT_BRANCH, BN.BASIC) for i in range(3)] + [
     f"{k}_region_{i}" for k in ("loop", "head", "branch", "tail", "meta") for i in range(2)
-]
+] + [
+    # blocks spelled like generated VARIABLE names, and names whose kind is itself a generated name (what
+    # new_block_name(<name of an existing block>) hands out, e.g. for clones)
+    f"__scfg_{k}_var_{i}__" for k in ("backedge", "exit", "control") for i in range(2)
+] + [f"{BN.BASIC}_block_0_block_{i}" for i in range(2)] + [f"loop_region_0_region_{i}" for i in range(2)] + [f"{BN.SYNTH_ASSIGN}_block_1_block_0"]
 
 
 class _Monitor:
